@@ -22,7 +22,18 @@ def nlines(out):
     return sum(1 for r in replay.parse_log(out["log"]) if r["who"] != "P" and r["kind"] == "L" and r["rest"][0] in cases.KILLFUNCS)
 
 
-def gen_scenarios(c, nref):
+def last_wait(out, markers):
+    """index (among the counted lines) of the last line at which the scheduler starts waiting for a job process"""
+    k = last = 0
+    for r in replay.parse_log(out["log"]):
+        if r["who"] != "P" and r["kind"] == "L" and r["rest"][0] in cases.KILLFUNCS:
+            k += 1
+            if markers and markers.get((r["rest"][0], int(r["rest"][1]))) == "WAIT":
+                last = k
+    return last or k
+
+
+def gen_scenarios(c, nref, lastwait):
     rng = c.rng
     scs = []
     k = 0
@@ -30,6 +41,8 @@ def gen_scenarios(c, nref):
     def add(kind, kill, latch, sig, second=None):
         nonlocal k
         k += 1
+        if "line" in kill and kill["line"] > lastwait.get(kind, 10 ** 6):
+            latch = "free"      # the line is only executed once every body has ended
         scs.append(cases.sc_restart(f"s{k:04d}", kind, kill, latch, sig, second))
 
     if c.quick:
@@ -191,14 +204,15 @@ def run(c: Check):
         for i, g in enumerate(gold):
             scs.append(dict(g, id=f"gold{i}"))
     ref_out = run_impl("drive_c11.py", dict(scenarios=refs, base=base, workers=3), timeout=300) if refs else []
-    nref = {}
+    nref, lastwait = {}, {}
     for sc, o in zip(refs, ref_out):
         if o is None or not cases.usable(o):
             raise InternalError(f"reference run {sc['id']} did not complete: {json.dumps(o)[:1500] if o else o}")
         nref[sc["meta"]["kind"]] = nlines(o)
+        lastwait[sc["meta"]["kind"]] = last_wait(o, markers)
     c.extra["reference_lines"] = nref
     if not c.replay:
-        scs += gen_scenarios(c, nref)
+        scs += gen_scenarios(c, nref, lastwait)
     outs = run_impl("drive_c11.py", dict(scenarios=scs, base=base, workers=6, deadline=t_budget),
                     timeout=(240 if c.quick else 1500)) if scs else []
     allsc = list(zip(refs + scs, ref_out + outs))
